@@ -98,7 +98,7 @@ func (x *Exec) step(st *State, fi int, instr ssa.Instruction, from *ssa.BasicBlo
 		switch bt := in.X.Type().Underlying().(type) {
 		case *types.Slice:
 			x.oblige(st, "bounds", exprText(in), "", And(Le(IntLit(0), idx.T), Lt(idx.T, sLen(base.T))), in.Pos())
-			x.setReg(st, fi, in, Value{Loc: &Loc{Arr: sArr(base.T), Idx: Add(sOff(base.T), idx.T), ElemT: bt.Elem()}, Typ: in.Type()})
+			x.setReg(st, fi, in, Value{Loc: &Loc{Arr: sArr(base.T), Idx: sIdx(sOff(base.T), idx.T), ElemT: bt.Elem()}, Typ: in.Type()})
 		case *types.Pointer:
 			at := bt.Elem().Underlying().(*types.Array)
 			x.oblige(st, "bounds", exprText(in), "", And(Le(IntLit(0), idx.T), Lt(idx.T, IntLit(at.Len()))), in.Pos())
@@ -172,6 +172,10 @@ func (x *Exec) step(st *State, fi int, instr ssa.Instruction, from *ssa.BasicBlo
 			x.setReg(st, fi, in, x.freshValue(st, "extract", in.Type()))
 		}
 	case *ssa.Phi:
+		if v, ok := st.frames[fi].phiOv[in]; ok {
+			x.setReg(st, fi, in, v)
+			return
+		}
 		for i, p := range in.Block().Preds {
 			if p == from {
 				x.setReg(st, fi, in, x.val(st, fi, in.Edges[i]))
